@@ -41,8 +41,9 @@ VARIABLES inst,    \* the instance being run (constant along a behaviour)
           glob,    \* <<ip, name>> -> value
           out,     \* sequence of printed lines (each a sequence of integers)
           selvec,  \* key -> case vector (mechanism modes)
-          fault    \* "" or the run-time panic that stopped the program
-vars == <<inst, procs, chans, wgs, mus, glob, out, selvec, fault>>
+          fault,   \* "" or the run-time panic that stopped the program
+          round    \* simulation only: index into PickSeq of the instance being run
+vars == <<inst, procs, chans, wgs, mus, glob, out, selvec, fault, round>>
 
 ChanBase == 1000
 IsChan(v) == v > ChanBase
@@ -87,16 +88,16 @@ Touch(ps, p, c) == [ps EXCEPT ![p].touched = @ \cup {c}]
 Terminal == \A p \in PIDs : procs[p].st = "done"
 Stopped == fault # ""
 
+Wgs0 == [k \in (IPs \X WgNames) |-> 0]
+Mus0 == [k \in (IPs \X MuNames) |-> 0]
+Glob0 == [k \in (IPs \X GlobNames) |-> 0]
+Selvec0 == [k \in ((0 - MaxSel)..(0 - 1)) \cup (1..MaxProcs) |-> [i \in 1..MaxCases |-> 0]]
+
 Init ==
     /\ inst \in Starts
     /\ procs = <<NewProc(inst.fn, inst.args, 0)>>
-    /\ chans = <<>>
-    /\ wgs = [k \in (IPs \X WgNames) |-> 0]
-    /\ mus = [k \in (IPs \X MuNames) |-> 0]
-    /\ glob = [k \in (IPs \X GlobNames) |-> 0]
-    /\ out = <<>>
-    /\ selvec = [k \in ((0 - MaxSel)..(0 - 1)) \cup (1..MaxProcs) |-> [i \in 1..MaxCases |-> 0]]
-    /\ fault = ""
+    /\ chans = <<>> /\ wgs = Wgs0 /\ mus = Mus0 /\ glob = Glob0
+    /\ out = <<>> /\ selvec = Selvec0 /\ fault = "" /\ round = 0
 
 \* ------------------------------------------------------- steps local to a process
 \* set/jmp/jz/ret touch nothing but the process itself; make and go create a fresh
@@ -130,7 +131,7 @@ Local ==
                       ELSE chans
          /\ i[1] = "make" => Len(chans) < MaxChans
          /\ i[1] \in {"go", "goi"} => Len(procs) < MaxProcs
-    /\ UNCHANGED <<inst, wgs, mus, glob, out, selvec, fault>>
+    /\ UNCHANGED <<round, inst, wgs, mus, glob, out, selvec, fault>>
 
 Ready(p) == Running(p)      \* (Next schedules these only when ~Stopped /\ ~LocalPending)
 
@@ -138,19 +139,19 @@ Println(p) ==
     /\ Ready(p) /\ Op(p) = "print"
     /\ out' = Append(out, EvalSeq(Ins(p)[2], Loc(p)))
     /\ procs' = Step(p)
-    /\ UNCHANGED <<inst, chans, wgs, mus, glob, selvec, fault>>
+    /\ UNCHANGED <<round, inst, chans, wgs, mus, glob, selvec, fault>>
 
 \* package-level variables
 Load(p) ==
     /\ Ready(p) /\ Op(p) = "load"
     /\ procs' = SetL(Step(p), p, Ins(p)[2], glob[NS(p, Ins(p)[3])])
-    /\ UNCHANGED <<inst, chans, wgs, mus, glob, out, selvec, fault>>
+    /\ UNCHANGED <<round, inst, chans, wgs, mus, glob, out, selvec, fault>>
 
 Store(p) ==
     /\ Ready(p) /\ Op(p) = "store"
     /\ glob' = [glob EXCEPT ![NS(p, Ins(p)[2])] = Eval(Ins(p)[3], Loc(p))]
     /\ procs' = Step(p)
-    /\ UNCHANGED <<inst, chans, wgs, mus, out, selvec, fault>>
+    /\ UNCHANGED <<round, inst, chans, wgs, mus, out, selvec, fault>>
 
 \* ---------------------------------------------------------------- sync.WaitGroup
 WgAdd(p) ==
@@ -160,19 +161,19 @@ WgAdd(p) ==
          IF wgs[k] + d < 0
          THEN fault' = "negative WaitGroup counter" /\ UNCHANGED <<wgs, procs>>
          ELSE wgs' = [wgs EXCEPT ![k] = @ + d] /\ procs' = Step(p) /\ UNCHANGED fault
-    /\ UNCHANGED <<inst, chans, mus, glob, out, selvec>>
+    /\ UNCHANGED <<round, inst, chans, mus, glob, out, selvec>>
 
 WgWait(p) ==
     /\ Ready(p) /\ Op(p) = "wgwait" /\ wgs[NS(p, Ins(p)[2])] = 0
     /\ procs' = Step(p)
-    /\ UNCHANGED <<inst, chans, wgs, mus, glob, out, selvec, fault>>
+    /\ UNCHANGED <<round, inst, chans, wgs, mus, glob, out, selvec, fault>>
 
 \* -------------------------------------------------------------------- sync.Mutex
 Lock(p) ==
     /\ Ready(p) /\ Op(p) = "lock" /\ mus[NS(p, Ins(p)[2])] = 0
     /\ mus' = [mus EXCEPT ![NS(p, Ins(p)[2])] = p]
     /\ procs' = [Step(p) EXCEPT ![p].held = @ \cup {NS(p, Ins(p)[2])}]
-    /\ UNCHANGED <<inst, chans, wgs, glob, out, selvec, fault>>
+    /\ UNCHANGED <<round, inst, chans, wgs, glob, out, selvec, fault>>
 
 Unlock(p) ==
     /\ Ready(p) /\ Op(p) = "unlock"
@@ -181,7 +182,7 @@ Unlock(p) ==
        ELSE /\ mus' = [mus EXCEPT ![NS(p, Ins(p)[2])] = 0]
             /\ procs' = [Step(p) EXCEPT ![p].held = @ \ {NS(p, Ins(p)[2])}]
             /\ UNCHANGED fault
-    /\ UNCHANGED <<inst, chans, wgs, glob, out, selvec>>
+    /\ UNCHANGED <<round, inst, chans, wgs, glob, out, selvec>>
 
 \* ---------------------------------------------------------------------- channels
 Ch(c) == chans[Cx(c)]
@@ -199,7 +200,7 @@ SelFill(p) ==
     /\ LET i == procs[p].sf + 1 IN
          /\ selvec' = [selvec EXCEPT ![SelKey(p)][i] = Loc(p)[Ins(p)[2][i][2]]]
          /\ procs' = [procs EXCEPT ![p].sf = i]
-    /\ UNCHANGED <<inst, chans, wgs, mus, glob, out, fault>>
+    /\ UNCHANGED <<round, inst, chans, wgs, mus, glob, out, fault>>
 
 \* <<value, next pc>> ways in which p is ready to SEND on channel c right now
 SendOffers(p, c) ==
@@ -234,7 +235,7 @@ Rendezvous(c) ==
          /\ p # q
          /\ \E s \in SendOffers(p, c), r \in RecvTargets(q, c) :
               procs' = Touch(Touch([Deliver(procs, q, r, s[1], 1) EXCEPT ![p].pc = s[2], ![p].sf = 0], p, c), q, c)
-    /\ UNCHANGED <<inst, chans, wgs, mus, glob, out, selvec, fault>>
+    /\ UNCHANGED <<round, inst, chans, wgs, mus, glob, out, selvec, fault>>
 
 \* what a send of v on c by p does by itself (buffer room, or closed channel)
 SendAlone(p, c, v, t) ==
@@ -257,13 +258,13 @@ RecvAlone(q, c, r) ==
 Send(p) ==
     /\ Ready(p) /\ Op(p) = "send"
     /\ SendAlone(p, Loc(p)[Ins(p)[2]], Eval(Ins(p)[3], Loc(p)), procs[p].pc + 1)
-    /\ UNCHANGED <<inst, wgs, mus, glob, out, selvec>>
+    /\ UNCHANGED <<round, inst, wgs, mus, glob, out, selvec>>
 
 \* v := <-c   and   v, ok := <-c
 Recv(p) ==
     /\ Ready(p) /\ Op(p) \in {"recv", "recvok"}
     /\ \E r \in RecvTargets(p, Loc(p)[Ins(p)[2]]) : RecvAlone(p, Loc(p)[Ins(p)[2]], r)
-    /\ UNCHANGED <<inst, wgs, mus, glob, out, selvec, fault>>
+    /\ UNCHANGED <<round, inst, wgs, mus, glob, out, selvec, fault>>
 
 \* one iteration of `for v := range c`: a value, or the exit when c is closed and drained
 RangeNext(p) ==
@@ -272,7 +273,7 @@ RangeNext(p) ==
          IF Len(Ch(c).buf) = 0 /\ Ch(c).closed
          THEN procs' = Touch(Goto(p, Ins(p)[4]), p, c) /\ UNCHANGED chans
          ELSE \E r \in RecvTargets(p, c) : RecvAlone(p, c, r)
-    /\ UNCHANGED <<inst, wgs, mus, glob, out, selvec, fault>>
+    /\ UNCHANGED <<round, inst, wgs, mus, glob, out, selvec, fault>>
 
 Close(p) ==
     /\ Ready(p) /\ Op(p) = "close"
@@ -280,7 +281,7 @@ Close(p) ==
          IF Ch(c).closed
          THEN fault' = "close of closed channel" /\ UNCHANGED <<chans, procs>>
          ELSE chans' = SetCh(c, [Ch(c) EXCEPT !.closed = TRUE]) /\ procs' = Touch(Step(p), p, c) /\ UNCHANGED fault
-    /\ UNCHANGED <<inst, wgs, mus, glob, out, selvec>>
+    /\ UNCHANGED <<round, inst, wgs, mus, glob, out, selvec>>
 
 \* select: the cases that can proceed without a partner
 AloneReady(p, i) ==
@@ -304,7 +305,7 @@ Select(p) ==
           /\ \A i \in 1..NCases(p) : ~AloneReady(p, i)
           /\ procs' = [procs EXCEPT ![p].pc = Ins(p)[3], ![p].sf = 0]
           /\ UNCHANGED <<chans, fault>>
-    /\ UNCHANGED <<inst, wgs, mus, glob, out, selvec>>
+    /\ UNCHANGED <<round, inst, wgs, mus, glob, out, selvec>>
 
 Finished == (Terminal \/ Stopped) /\ UNCHANGED vars
 
@@ -348,8 +349,21 @@ MutualExclusion ==
 \* the program ends when main returns: nothing observable may be left to do then
 MainLast == procs[1].st = "done" => \A p \in PIDs : procs[p].st = "done" \/ Op(p) = "ret"
 
-\* simulation (larger n): no stuttering at the end, deadlock freedom as an invariant
-SpecSim == Init /\ [][Step1]_vars
+\* simulation (instances beyond the exhaustive bounds): one long behaviour runs the
+\* instances of PickSeq one after the other, a random schedule each; no stuttering at
+\* the end, deadlock freedom as an invariant
+InitSim ==
+    /\ inst = MkT(PickSeq[1]) /\ round = 1
+    /\ procs = <<NewProc(inst.fn, inst.args, 0)>>
+    /\ chans = <<>> /\ wgs = Wgs0 /\ mus = Mus0 /\ glob = Glob0
+    /\ out = <<>> /\ selvec = Selvec0 /\ fault = ""
+NextInstance ==
+    /\ Terminal /\ round < Len(PickSeq)
+    /\ round' = round + 1 /\ inst' = MkT(PickSeq[round + 1])
+    /\ procs' = <<NewProc(inst'.fn, inst'.args, 0)>>
+    /\ chans' = <<>> /\ wgs' = Wgs0 /\ mus' = Mus0 /\ glob' = Glob0
+    /\ out' = <<>> /\ selvec' = Selvec0 /\ fault' = ""
+SpecSim == InitSim /\ [][Step1 \/ NextInstance]_vars
 DeadlockFree == (~Terminal /\ ~Stopped) => ENABLED Step1
 
 \* Every terminal state carries the output the family defines: the instance is
